@@ -1,7 +1,7 @@
 #!/bin/bash
 # Runs every check's thorough tier once, sequentially; prints exit code and wall time per check.
 cd "$(dirname "$0")"
-for id in ${@:-C04 C05 C09 C07 C08 C15 C10 C16 C03 C06 C12 C14 C20 C11 C19 C17 C18 C13 C01 C02}; do
+for id in ${@:-C04 C05 C09 C07 C08 C15 C10 C16 C03 C06 C12 C14 C20 C11 C19 C17 C18 C13 C01 C02 C21}; do
   t0=$(date +%s)
   /venv/bin/python checks/run.py $id --tier thorough > thorough_$id.log 2>&1
   rc=$?
